@@ -711,10 +711,12 @@ def _process_globals():
 
 
 def _malformed(v):
+    """Value list replaced by something else, holding non-arrays, or grown beyond any sensible
+    size (x *= 1000 repeats the list 1000 times): such objects are not fed to further calls."""
     if not is_sm_object(v) or not hasattr(v, 'data'):
         return False
     d = v.data
-    return not isinstance(d, list) or any(not isinstance(a, np.ndarray) for a in d)
+    return not isinstance(d, list) or len(d) > 64 or any(not isinstance(a, np.ndarray) for a in d)
 
 
 def _shares(v, arrays):
